@@ -72,3 +72,7 @@ def register_all(reg):
     reg("C11", "seqx", "exploration", "bounded-exhaustive relation construction x partial assignment x slicing sequence vs reference function, in sub-processes over 5 hash seeds",
         "Every relation kind over <=4 variables in every variable-list order is evaluated and sliced by every ordered <=3-step sequence; dimensions and all four call forms are compared with a plain-Python model under PYTHONHASHSEED 0,1,2,3,7 in every run.",
         "Quick restricts arity 4 to the expression kind and conditionals to <=3 variables; the documented ZeroAry result of return_neutral=False is accepted. " + E2_NOTE, "DESIGN.md 3 C11")
+
+    reg("C15", "seqx", "exploration", "exhaustive wire / pickle round trip with deep structural comparison, incl. traffic harvested from real runs",
+        "Every message class (field-menu products and messages harvested from real runs of the 13 algorithm modules), every ComputationDef of the 4 graph models over all small DCOPs, and AgentDefs are pushed through the real send_msg / do_POST transformation (only the socket is replaced) or pickle and compared field by field, link by link, value by value.",
+        "A set decoded as a list is accepted; the socket itself is not exercised; replication and discovery messages come from menus, not harvested. " + E2_NOTE, "DESIGN.md 3 C15")
